@@ -1,8 +1,8 @@
 CONSTANTS
-  MaxFrames = 3
+  MaxFrames = 2
   Lens = {3, 5}
   H = 3
-  Preface = 0
+  Preface = 4
   Defects = {}
 SPECIFICATION Spec
 INVARIANTS InOrderOnce NoEarly Prompt Consumed PrefaceOnce NoError SameForEveryCut EmitCase
